@@ -354,7 +354,12 @@ fn raw_case(u: &mut Choices) -> CaseResult {
 // ------------------------------------------------------------------------------------------------
 // stage: process level (recursion, deep nesting, rulegen): the real binary must not die
 
-fn process_inputs() -> Vec<(&'static str, Vec<String>, String, String)> {
+fn process_inputs() -> &'static Vec<(&'static str, Vec<String>, String, String)> {
+    static CACHE: std::sync::OnceLock<Vec<(&'static str, Vec<String>, String, String)>> = std::sync::OnceLock::new();
+    CACHE.get_or_init(build_process_inputs)
+}
+
+fn build_process_inputs() -> Vec<(&'static str, Vec<String>, String, String)> {
     // (what, argv template with {R} {D}, rules text, data text)
     let deep = |o: &str, c: &str, d: usize| format!("{}1{}", o.repeat(d), c.repeat(d));
     let v = |xs: &[&str]| xs.iter().map(|x| x.to_string()).collect::<Vec<String>>();
@@ -391,7 +396,68 @@ fn process_inputs() -> Vec<(&'static str, Vec<String>, String, String)> {
         ("payload that is not JSON", v(&["validate", "--payload"]), String::new(), "{\"rules\": [".to_string()),
         ("payload with wrong field types", v(&["validate", "--payload"]), String::new(), "{\"rules\": [1], \"data\": [2]}".to_string()),
     ];
-    out.shrink_to_fit();
+    // generated: cycles among variables (scope x definition kind x cycle length x use) and among
+    // rules (link kind x cycle length); names are leaked once per process (static table)
+    for (name, argv, rules, data) in cycle_inputs() {
+        out.push((Box::leak(name.into_boxed_str()), if argv { vals.clone() } else { val.clone() }, rules, data));
+    }
+    out
+}
+
+fn cycle_inputs() -> Vec<(String, bool, String, String)> {
+    let doc = "{\"x\": {\"b\": \"s\", \"x\": {\"b\": \"t\"}}, \"Resources\": {\"r\": {\"Type\": \"AWS::S3::Bucket\", \"Properties\": {\"b\": \"s\"}}}}";
+    let mut out = vec![];
+    let kinds = ["%{}", "%{}.b", "to_upper(%{})", "join(%{}, \",\")", "x.%{}", "x[ b == %{} ]"];
+    let uses = ["%v0 exists", "x.b == %v0", "%v0 {\n b exists\n }", "some %v0[*] == 1", "x.%v0 exists", "x[ b == %v0 ] exists"];
+    let scopes = ["file", "rule", "block", "type-block", "when-block", "mixed"];
+    for (si, scope) in scopes.iter().enumerate() {
+        for ki in 0..kinds.len() + 1 {
+            for len in 1..=3usize {
+                for (ui, usage) in uses.iter().enumerate() {
+                    // keep the product affordable: every (scope, kind, len) with two uses
+                    if (si + ki + len + ui) % 3 != 0 {
+                        continue;
+                    }
+                    let lets: Vec<String> = (0..len)
+                        .map(|i| {
+                            let k = if ki == kinds.len() { kinds[(i + ui) % kinds.len()] } else { kinds[ki] };
+                            format!("let v{} = {}", i, k.replace("{}", &format!("v{}", (i + 1) % len)))
+                        })
+                        .collect();
+                    let inner = lets.join("\n  ");
+                    let rules = match *scope {
+                        "file" => format!("{}\nrule r {{\n  {}\n}}\n", lets.join("\n"), usage),
+                        "rule" => format!("rule r {{\n  {}\n  {}\n}}\n", inner, usage),
+                        "block" => format!("rule r {{\n  x {{\n  {}\n  {}\n  }}\n}}\n", inner, usage),
+                        "type-block" => format!("AWS::S3::Bucket {{\n  {}\n  {}\n}}\n", inner, usage.replace("x.b", "Properties.b")),
+                        "when-block" => format!("rule r {{\n  when x exists {{\n  {}\n  {}\n  }}\n}}\n", inner, usage),
+                        // the first variable in a block, the rest at file level
+                        _ => format!("{}\nrule r {{\n  x {{\n  {}\n  {}\n  }}\n}}\n", lets[1..].join("\n"), lets[0], usage),
+                    };
+                    out.push((format!("variable cycle: scope={} kind={} len={} use={}", scope, ki, len, ui), (si + ui) % 2 == 0, rules, doc.to_string()));
+                }
+            }
+        }
+    }
+    // rules: a -> b -> .. -> a through references, negated references, when conditions, calls
+    let links = ["{}", "not {}", "when {}", "call", "x {\n {}\n }", "when x exists {\n {}\n }"];
+    for (li, link) in links.iter().enumerate() {
+        for len in 1..=3usize {
+            let mut rules = String::new();
+            for i in 0..len {
+                let next = format!("r{}", (i + 1) % len);
+                match *link {
+                    "when {}" => rules.push_str(&format!("rule r{} when {} {{\n  x exists\n}}\n", i, next)),
+                    "call" => rules.push_str(&format!("rule r{}(p) {{\n  {}(%p)\n}}\n", i, next)),
+                    l => rules.push_str(&format!("rule r{} {{\n  x exists\n  {}\n}}\n", i, l.replace("{}", &next))),
+                }
+            }
+            if *link == "call" {
+                rules.push_str("rule top {\n  r0(x)\n}\n");
+            }
+            out.push((format!("rule cycle: link={} len={}", li, len), li % 2 == 0, rules, doc.to_string()));
+        }
+    }
     out
 }
 
